@@ -222,15 +222,19 @@ class Check:
         for k, v in sorted(self.counters.items()):
             print(f'[{self.pid}]   {k} = {v}')
         if self.violations:
-            seen = set()
+            by_mech: T.Dict[str, T.List[dict]] = {}
             for w in self.violations:
-                p = self.write_replay(w)
-                if w['mechanism'] in seen and len(seen) > 10:
-                    continue
-                seen.add(w['mechanism'])
-                print(f'VIOLATION property={self.pid} replay={p}')
-                print(f'  mechanism={w["mechanism"]} ' + json.dumps({k: v for k, v in w.items() if k != 'mechanism'},
-                                                                     default=repr, ensure_ascii=True)[:600])
+                by_mech.setdefault(w['mechanism'], []).append(w)
+            for i, (mech, ws) in enumerate(sorted(by_mech.items())):
+                p = self.write_replay(ws[0])
+                for w in ws[1:4]:
+                    self.write_replay(w)
+                if i < 20:
+                    print(f'VIOLATION property={self.pid} replay={p}')
+                    print(f'  mechanism={mech} count={len(ws)} first=' + json.dumps(
+                        {k: v for k, v in ws[0].items() if k != 'mechanism'}, default=repr, ensure_ascii=True)[:700])
+            if len(by_mech) > 20:
+                print(f'  ... and {len(by_mech) - 20} more mechanisms')
             return 1
         if self.inconclusive or self.evaluations == 0:
             print(f'INCONCLUSIVE property={self.pid} reason=' + ('; '.join(self.inconclusive) or 'nothing explored'))
